@@ -113,6 +113,12 @@ def judge(prop, f, impl, model, spec):
                 j.viol = "two different nodes of the document have the same identity hash"
             j.nontrivial = True
         return j
+    if kind == "plan":
+        # builder correspondence: the model's plan must be the plan the real builder produces
+        if impl != model and "unmodelled" not in model:
+            j.mismatch = "built query plan differs: impl=%s model=%s" % (impl[:300], model[:300])
+        j.nontrivial = impl.startswith("plan:")
+        return j
     if prop in ("C01", "C02", "C03"):
         judge_nodeset(j, f, impl, model, spec)
     elif prop == "C11":
